@@ -225,6 +225,40 @@ def run(ctx):
                 ctx.violate("R7", f"{short}.load_many skips frames with `continue`", g, n)
     ctx.floor("R2", nlm, 7, "format load_many generators")
 
+    # ------------------------------------------------------------------ R8
+    ctx.rule("R8", "counted record loops consume lines with next(), which raises at end of file", "a file cut inside a counted block yields a partially filled frame without warning or error")
+    roots = []
+    for short in fm:
+        for op in ("load_one", "load_many"):
+            g = prog.format_op(short, op)
+            if g:
+                roots.append(g)
+    ncounted = 0
+    for f in prog.callees_closure(roots):
+        flits = cons.lit_names(f)
+        if not flits:
+            continue
+        for n in f.own_nodes():
+            if isinstance(n, (ast.For, ast.comprehension)):
+                it = n.iter
+                if isinstance(it, ast.Call):
+                    nm = it.func.id if isinstance(it.func, ast.Name) else getattr(it.func, "attr", "")
+                    uses_lit = any(isinstance(a, ast.Name) and a.id in flits for a in it.args)
+                    if uses_lit and nm in ("zip", "islice", "takewhile", "zip_longest", "enumerate") and (nm != "enumerate"):
+                        ctx.violate("R8", f"`{src_of(it)}` iterates the line iterator in a bounded loop that ends silently when the file runs out: the remaining records keep their initial values", f, it)
+                    # counted loop: for i in range(n): ... next(lit)
+                    if nm == "range" and isinstance(n, ast.For):
+                        body_calls = [x for s_ in n.body for x in ast.walk(s_) if isinstance(x, ast.Call)]
+                        consumes = [x for x in body_calls if (getattr(x.func, "id", "") == "next" and x.args and isinstance(x.args[0], ast.Name) and x.args[0].id in flits)]
+                        if consumes:
+                            ncounted += 1
+                            two = [x for x in consumes if len(x.args) > 1]
+                            if two:
+                                ctx.violate("R8", "a counted record loop reads lines with next(lit, default): the end of the file is not noticed", f, two[0])
+                            else:
+                                ctx.ok("R8", f"{f.name}: counted loop `for {src_of(n.target)} in {src_of(it)}` reads with next(lit)", f"{f.module.relpath}:{n.lineno}", sample=(ncounted % 8 == 1))
+    ctx.floor("R8", ncounted, 15, "counted record loops")
+
     # dump side of R6
     ndm = 0
     for short, mod in fm.items():
